@@ -4,11 +4,11 @@ from wallet_common import *
 
 MANIFEST_ENTRY = dict(
     cat="model_checking", ref='DESIGN.md 4 C15', engine="wallet-tla",
-    text='TLC explores output-creating histories over two accounts (receive, change, coinbase to the wallet, outputs built for the caller with owner::build_output, the output a mwixnet swap request builds (owner::create_mwixnet_req, with and without reserving the swapped output), invoice in thorough, account switching, sends from a named account while another is active) and checks that no key is ever handed to a new output twice (history variable `issued`); the behaviours run on real wallets and TLC checks PathsUnique on every observed new record. For a sample of the generated output-creating operations the harness also enumerates every crash / failing-write point (as in C06), re-opens the wallet and asks it for one more key: TLC checks the key was never handed out before (PathsUniqueAfterCrash). Restores are covered here (directed behaviour, RestoreBeyond) and by C16.',
+    text='TLC explores output-creating histories over two accounts (receive, change, coinbase to the wallet, outputs built for the caller with owner::build_output, the output a mwixnet swap request builds (owner::create_mwixnet_req, with and without reserving the swapped output), coinbase requests naming the key of every existing record (the one exception granted to a mining node: the still-unconfirmed candidate it replaces), invoice in thorough, account switching, sends from a named account while another is active) and checks that no key is ever handed to a new output twice (history variable `issued`); the behaviours run on real wallets and TLC checks PathsUnique on every observed new record. For a sample of the generated output-creating operations the harness also enumerates every crash / failing-write point (as in C06), re-opens the wallet and asks it for one more key: TLC checks the key was never handed out before (PathsUniqueAfterCrash). Restores are covered here (directed behaviour, RestoreBeyond) and by C16.',
     technique="TLC model checking of spec/MCWallet.tla + TLC-generated behaviours replayed on the real code + TLC trace validation (spec/TraceWallet.tla)",
     note=WALLET_NOTE)
 
-PARAMS = dict(quick_cfgs=['MC_C15_quick.cfg', 'MC_C15_buildq.cfg'], thorough_cfgs=['MC_C15.cfg', 'MC_C03_acct.cfg', 'MC_C15_build.cfg'], quick_n=80, thorough_n=600, focus=['set_active', 'create_account', '>', 'build_output', 'mwix_req'],
+PARAMS = dict(quick_cfgs=['MC_C15_quick.cfg', 'MC_C15_buildq.cfg', 'MC_C07_quick.cfg'], thorough_cfgs=['MC_C15.cfg', 'MC_C03_acct.cfg', 'MC_C15_build.cfg', 'MC_C07_quick.cfg', 'MC_C07_acct.cfg'], quick_n=80, thorough_n=600, focus=['set_active', 'create_account', '>', 'build_output', 'mwix_req', 'build_coinbase'],
               crash_cases_quick=10, crash_cases_thorough=80, crash_ops=['receive', 'lock', 'finalize', 'process_invoice', 'init_send'],
               setup=STD_SETUP, assumptions=WALLET_ASSUME, extra_behaviours=[
     # directed: a restore from seed when the last output in chain order is NOT the one with the
